@@ -55,3 +55,30 @@ Example C01_ex :
   serve ex_cfg ex_raw None
   = [Out (BAuth 3); CbValidate [] (bs "a") (bs "bad"); Out (err_msg (Some e_invalid_password)); Closed].
 Proof. vm_compute. reflexivity. Qed.
+
+(* ---------- the whole connection against the executable oracle ---------- *)
+Require Import Wire.RobustFacts Wire.Case Spec.Oracles Spec.OracleFacts Spec.OracleFactsAuth.
+
+(* For every case the harness can script — any startup packet, any of the four validator
+   behaviours (compare with a password, accept, reject, fail), any byte stream in place
+   of and behind the password message, any middlewares, parser table and handler
+   programs (COPY included) — the log of the model passes [oracle_C01], the predicate
+   evaluated on the implementation's logs: the validator only ever sees the password
+   actually sent; AuthenticationOk, ParameterStatus, ReadyForQuery and every callback
+   other than the validator occur only after an accepting validation; without one the
+   connection is closed with no AuthenticationOk, and a validator that said no is
+   reported with SQLSTATE class 28. *)
+Theorem C01_model_satisfies_oracle : forall sc,
+  mode_ok sc ->
+  (forall v after rest, start (cfg_of_case sc) (sc_raw sc) = Some (v, after, rest) -> v <> version_ssl) ->
+  oracle_C01 sc (run_case sc) = true.
+Proof. exact oracle_C01_model. Qed.
+Print Assumptions C01_model_satisfies_oracle.
+
+Definition ex_case (mode : Z) : scase :=
+  {| sc_limit := 0; sc_auth := Some (mode, bs "secret"); sc_params := []; sc_version := []; sc_tls := false; sc_mws := [true];
+     sc_term := None; sc_parse := []; sc_raw := ex_raw; sc_tlsin := None |}.
+Example C01_ex_model :
+  mode_ok (ex_case 0) /\ map (fun m => oracle_C01 (ex_case m) (run_case (ex_case m))) [0; 1; 2; 3] = [true; true; true; true] /\
+  map (fun m => List.length (run_case (ex_case m))) [0; 1; 2; 3] = [4; 14; 4; 3]%nat.
+Proof. split; [unfold mode_ok; cbn; lia|]. vm_compute. split; reflexivity. Qed.
